@@ -26,7 +26,7 @@ def main():
     if "--in-repo" in ids:
         ids.remove("--in-repo")
     else:
-        R = "/tmp/seed/_apply"
+        R = "/tmp/seed/_apply" + os.environ.get("SEEDTEST_TAG", "")
         if not os.path.isdir(R):
             os.makedirs("/tmp/seed", exist_ok=True)
             subprocess.run(["git", "-C", "/repo", "worktree", "prune"])
@@ -38,7 +38,7 @@ def main():
     # /verif itself is not disturbed (and does not disturb the run)
     global V
     if R != "/repo":
-        V2 = "/tmp/seed/_verif"
+        V2 = "/tmp/seed/_verif" + os.environ.get("SEEDTEST_TAG", "")
         subprocess.run(["rsync", "-a", "--delete", "--exclude", ".git", "--exclude", "replays", "--exclude", "seeded", V + "/", V2 + "/"], check=True)
         V = V2
     if not ids:
